@@ -382,7 +382,7 @@ def compare_simple(rec, pdf, exp):
     for bt, (text, adv, m, _bb, _fn) in enumerate(chars):
         ti, tc, ai, ac = exp["ti"][bt], exp["tc"][bt], exp["ai"][bt], exp["ac"][bt]
         if text != ti:
-            if text == tc and bt in exp["hit"] and uses_builtin(f) and f["std"]:
+            if text == tc and bt in exp["hit"] and uses_builtin(f) and f["std"] and "BuiltinStdIgnored" in rec.get("devs", []):
                 out.append(("dev:BuiltinStdIgnored", "code %d of a font whose embedded Type 1 program declares StandardEncoding "
                             "shows %r, expected %r" % (bt, text, ti), {"code": bt, "observed": text, "expected": ti}))
             elif text == tc and bt in exp["hit"] and uses_builtin(f):
